@@ -273,6 +273,30 @@ def _():
     m = re.search(r"impl<'a> fmt::Debug for DnaStringSlice<'a> \{.*?if self\.length < (\d+) \{", t, re.S)
     return m.group(1) if m else None
 
+# ---------------------------------------------------------------- lib.rs Exts
+@item("extsComplement", "List (Nat × Nat)", "[(85,1),(51,2)]", "Exts::complement: (mask, shift) of the two swap steps")
+def _():
+    t = src("lib.rs")
+    m = re.search(r"pub fn complement\(&self\) -> Exts \{(.*?)Exts \{ val: r \}", t, re.S)
+    if not m:
+        return None
+    steps = re.findall(r"\((\w+) & 0x([0-9a-fA-F]+)u8\) << (\d+) \| \(\((\w+) >> (\d+)\) & 0x([0-9a-fA-F]+)u8\)", m.group(1))
+    if len(steps) != 2 or any(st[1].lower() != st[5].lower() or st[2] != st[4] or st[0] != st[3] for st in steps):
+        return None
+    return "[" + ",".join("(%d,%d)" % (int(st[1], 16), int(st[2])) for st in steps) + "]"
+
+@item("extsReverse", "Nat × Nat × Nat", "(15,4,4)", "Exts::reverse: (v & MASK) << L | (v >> R)")
+def _():
+    t = src("lib.rs")
+    m = re.search(r"pub fn reverse\(&self\) -> Exts \{\s*let v = self\.val;\s*let r = \(v & 0x([0-9a-fA-F]+)\) << (\d+) \| \(v >> (\d+)\);", t)
+    return "(%d,%s,%s)" % (int(m.group(1), 16), m.group(2), m.group(3)) if m else None
+
+@item("extsMerge", "Nat × Nat", "(15,240)", "Exts::merge: left.val & L | right.val & R")
+def _():
+    t = src("lib.rs")
+    m = re.search(r"pub fn merge\(left: Exts, right: Exts\) -> Exts \{\s*Exts \{\s*val: left\.val & 0x([0-9a-fA-F]+) \| right\.val & 0x([0-9a-fA-F]+),", t)
+    return "(%d,%d)" % (int(m.group(1), 16), int(m.group(2), 16)) if m else None
+
 def generate():
     lines = ["/-! GENERATED by tools/extract_consts.py from /repo/src — do not edit. -/", "namespace Gen", ""]
     fallbacks = []
